@@ -231,7 +231,14 @@ func runC18(r *Run, p *Prog) {
 							}
 							n++
 							got := strip(T.T(res))
-							want := strings.Replace(sendConn, "param:c", "param:"+rootRecvName(up), 1)
+							// the same member of the receiver, whatever the two methods call their receiver
+							want := sendConn
+							if send != nil && len(send.Params) > 0 {
+								pfx := "param:" + send.Params[0].Name() + "."
+								if strings.HasPrefix(sendConn, pfx) {
+									want = "param:" + rootRecvName(up) + "." + strings.TrimPrefix(sendConn, pfx)
+								}
+							}
 							r.Ob("U2", shortName(cl), "Upgrade hands out "+got, ret.Pos(), got == want && sendConn != "",
 								fmt.Sprintf("the object returned after an upgrade (%s) is not the connection object the request was sent and the reply was read on (%s): bytes buffered behind the reply frame are lost", got, want))
 						}
